@@ -41,6 +41,13 @@ MODES = {   # label -> (type spec, matlab class, unwrap kind, C++ type in unwrap
     'obj-cref': (T(A, 1, '&'), 'gt.Arg', 'unwrap_shared_ptr_deref', 'gt::Arg', ''),
     'obj-shared': (T(A, 0, '*'), 'gt.Arg', 'unwrap_shared_ptr', 'gt::Arg', ''),
     'obj-raw': (T(A, 0, '@'), 'gt.Arg', 'unwrap_ptr', 'gt::Arg', ''),
+    # templated container types: the same template with different arguments in the same slot of neighbouring callables
+    'vec-int': (T('std::vector', t=[T('int')]), 'std.vectorint', 'unwrap_shared_ptr', 'std::vector<int>', '*'),
+    'vec-arg-cref': (T('std::vector', 1, '&', [T('gt::Arg')]), 'std.vectorArg', 'unwrap_shared_ptr_deref', 'std::vector<gt::Arg>', ''),
+    'map-shared': (T('std::map', 0, '*', [T('int'), T('gt::Arg')]), 'std.mapintArg', 'unwrap_shared_ptr', 'std::map<int,gt::Arg>', ''),
+    # classes whose names look like something else: gtsam's Key, a name containing "string"
+    'key-value': (T('gt::Key'), 'gt.Key', 'unwrap_shared_ptr', 'gt::Key', '*'),
+    'substring-value': (T('gt::Substring'), 'gt.Substring', 'unwrap_shared_ptr', 'gt::Substring', '*'),
     'ns-enum': (T('gt::Kind'), 'gt.Kind', 'unwrap_enum', 'gt::Kind', ''),
     'class-enum': (T('gt::Host::Mode'), 'gt.Host.Mode', 'unwrap_enum', 'gt::Host::Mode', ''),
 }
@@ -48,7 +55,9 @@ DEFAULTS = {'int': '41', 'double': '4.5', 'bool': 'true', 'size_t': '43', 'char'
             'const-string-ref': '"ref, dflt"', 'Vector': 'Vector()', 'Matrix': 'Matrix::Identity(2, 2)',
             'Point2': 'Point2(1, 2)', 'Point3': 'Point3(1, 2, 3)',
             'obj-value': 'gt::Arg()', 'obj-cref': 'gt::Arg(1)', 'obj-shared': 'nullptr', 'obj-raw': 'nullptr',
-            'ns-enum': 'gt::Kind::Cat', 'class-enum': 'gt::Host::Mode::SLOW'}
+            'ns-enum': 'gt::Kind::Cat', 'class-enum': 'gt::Host::Mode::SLOW',
+            'vec-int': 'std::vector<int>()', 'vec-arg-cref': 'std::vector<gt::Arg>()', 'map-shared': 'nullptr',
+            'key-value': 'gt::Key()', 'substring-value': 'gt::Substring()'}
 
 RETURNS = {   # label -> (ret spec, expected out wraps (list of (kind, type text)), .m outputs)
     'void': (single(T('void')), [], 0),
@@ -67,6 +76,10 @@ RETURNS = {   # label -> (ret spec, expected out wraps (list of (kind, type text
     # a class whose name contains the letters "void"
     'obj-voidname': (single(T('gt::Avoider')), [('wrap_shared_ptr_make', 'gt::Avoider', 'gt.Avoider')], 1),
     'pair-voidname': (pair(T('gt::Avoider', 0, '*'), T('int')), [('wrap_shared_ptr', 'gt.Avoider'), ('wrap', 'int')], 2),
+    'pair-obj-obj': (pair(T(A), T(A)), [('wrap_shared_ptr_make', 'gt::Arg', 'gt.Arg'), ('wrap_shared_ptr_make', 'gt::Arg', 'gt.Arg')], 2),
+    'pair-shared-obj': (pair(T(A, 0, '*'), T('gt::Avoider')), [('wrap_shared_ptr', 'gt.Arg'), ('wrap_shared_ptr_make', 'gt::Avoider', 'gt.Avoider')], 2),
+    'obj-stringname': (single(T('gt::Substring')), [('wrap_shared_ptr_make', 'gt::Substring', 'gt.Substring')], 1),
+    'obj-keyname': (single(T('gt::Key')), [('wrap_shared_ptr_make', 'gt::Key', 'gt.Key')], 1),
 }
 
 # shape tests the guard adds for fixed-size types: mode -> {dimension: extent}
@@ -129,7 +142,8 @@ def _scoped(res, scope):
 def _build_module(kind, items, layout='support-first'):
     """items: list of dicts {modes, k, ret}; returns (module spec, list of expected callables)."""
     members, funcs, exp = [], [], []
-    support = [D.enum('Kind', ['Dog', 'Cat']), D.cls('Arg', [D.ctor('Arg')]), D.cls('Avoider', [D.ctor('Avoider')])]
+    support = [D.enum('Kind', ['Dog', 'Cat']), D.cls('Arg', [D.ctor('Arg')]), D.cls('Avoider', [D.ctor('Avoider')]),
+               D.cls('Key', [D.ctor('Key')]), D.cls('Substring', [D.ctor('Substring')])]
     host_members = [D.enum('Mode', ['FAST', 'SLOW'], 'enum class'), D.ctor('Host')]
     extra_classes = []
     for i, it in enumerate(items):
@@ -154,6 +168,10 @@ def _build_module(kind, items, layout='support-first'):
             else:
                 extra_classes.append(D.cls(name, [D.ctor(name, args)]))
         exp.append(e)
+    if layout == 'reopened-ns':
+        # namespace gt is opened twice: an earlier block with a class that has a method, then the block with everything
+        early = D.cls('Early', [D.ctor('Early'), D.method(single(T('int')), 'early', [arg(T('int'), 'e')], 1)])
+        return [D.ns('gt', [early]), D.ns('gt', support + [D.cls('Host', host_members)] + extra_classes + funcs)], exp
     if layout == 'support-last':
         # the enum and the argument class are declared after everything that uses them
         body = [D.cls('Host', host_members)] + extra_classes + funcs + support
@@ -299,6 +317,12 @@ def check_unit(case):
                 mode = e['modes'][i]
                 want_cls = sc(MODES[mode][1])
                 got_cls = g['isa'].get(i + 1)
+                if '<' in MODES[mode][3]:
+                    # std:: containers have no MATLAB class of their own; the generator names them differently in method
+                    # guards (std.vectorint) and in constructor / function guards (std.vectornumeric): not compared
+                    if got_cls is None or not got_cls.startswith('std.'):
+                        add('C06|guard-class|%s|%s' % (kind, mode), 'arity %d: guard tests varargin{%d} as %r, expected a std.* class name' % (ar, i + 1, got_cls), e)
+                    continue
                 if got_cls != want_cls:
                     add('C06|guard-class|%s|%s' % (kind, mode),
                         'arity %d: guard tests varargin{%d} as %r, declared type needs %r' % (ar, i + 1, got_cls, want_cls), e)
@@ -469,13 +493,17 @@ def run(ctx):
         for scope in ('gt', ''):
             for i in range(0, len(its), per):
                 cases.append({'kind': kind, 'items': its[i:i + per], 'scope': scope, 'layout': 'support-last'})
+    for kind in KINDS:
+        its = uses if kind != 'ctor' else [it for it in uses if it['ret'] == 'int']
+        for i in range(0, len(its), per):
+            cases.append({'kind': kind, 'items': its[i:i + per], 'scope': 'gt', 'layout': 'reopened-ns'})
     res = ctx.map(check_unit, cases, chunksize=1)
     ncall = sum(len(c['items']) for c in cases)
     return {
         'evaluations': sum(r.get('n', 0) for _, r in res),
         'distinct_nontrivial': ncall,
-        'rule': 'signatures = arity 0..%d x every trailing default count x one deviating parameter over 18 passing modes%s, '
-                'plus 15 return shapes, overload sets of 5 members in every rotation, and the enum / argument class declared after their users; each as method / static / function / constructor; evaluations = (callable, arity) '
+        'rule': 'signatures = arity 0..%d x every trailing default count x one deviating parameter over 23 passing modes%s, '
+                'plus 19 return shapes, overload sets of 5 members in every rotation, and the enum / argument class declared after their users; each as method / static / function / constructor; evaluations = (callable, arity) '
                 'pairs fully checked on both sides, distinct_nontrivial = distinct callables; scopes: namespace gt (all), global and gt::inner (%s)'
                 % ((5, ' + two deviating parameters for n = 2, 3', 'all') if ctx.thorough else (4, ' + two deviating parameters for n = 2', 'every 3rd signature')),
         'samples': [D.render(build_module('method', items[40:44], 'gt')[0])],
